@@ -249,6 +249,8 @@ func genC06Case(rt *rapid.T) c06Case {
 	// single-defect cases: when the signer list is what is wrong (or the count), everything else is genuine
 	// in two cases out of three - one signature per listed signer, by that signer, over the presented data
 	onlySignerDefect := (len(notes) > 0 || cnt != c.T) && rapid.IntRange(0, 2).Draw(rt, "onlySignerDefect") > 0
+	// ... or, one time in three, signature i is by the keyper at position i (the whole set signing in order)
+	byPosition := onlySignerDefect && rapid.IntRange(0, 2).Draw(rt, "byPosition") == 0
 	sigCountSel := rapid.IntRange(0, 7).Draw(rt, "sigCount")
 	if onlySignerDefect {
 		sigCountSel = 7
@@ -268,9 +270,12 @@ func genC06Case(rt *rapid.T) c06Case {
 	}
 	for i := 0; i < ns; i++ {
 		l := fmt.Sprintf("sig%d", i)
-		kind := rapid.SampledFrom([]string{"listed", "listed", "listed", "listed", "listed", "listed", "other-member", "outsider", "other-tuple", "random", "short", "empty"}).Draw(rt, l)
+		kind := rapid.SampledFrom([]string{"listed", "listed", "listed", "listed", "listed", "listed", "other-member", "outsider", "other-tuple", "random", "short", "empty", "by-position"}).Draw(rt, l)
 		if onlySignerDefect {
 			kind = "listed"
+			if byPosition {
+				kind = "by-position"
+			}
 		}
 		spec := sigSpec{Kind: kind, Signer: -1}
 		listed := -1
@@ -285,6 +290,12 @@ func genC06Case(rt *rapid.T) c06Case {
 		switch kind {
 		case "listed":
 			spec.Signer = listed
+		case "by-position":
+			// signature i by the keyper at position i of the set, whatever index the list names there
+			spec.Signer = outsiderKeyIdx
+			if i < c.N {
+				spec.Signer = i
+			}
 		case "other-member":
 			if c.N < 2 {
 				spec.Signer = outsiderKeyIdx
@@ -440,7 +451,7 @@ func c06Labels(c *c06Case, want bool) (bool, []string) {
 
 func TestC06_PureValidators(t *testing.T) {
 	rec := recorder("C06")
-	rec.AddRule("keyper sets n<=4 (fixed ECDSA keys + one outsider), all thresholds; signer lists of length 0..n+1 over {in range, =n, huge, repeated, descending}; signature lists of length 0..n+1 with entries {by the listed signer, by another member, by the outsider, over a tuple differing in exactly one field, 65 random bytes, short, empty}; the presented message optionally differs from the signed tuple in exactly one field (instance, eon, slot, tx pointer, identity byte, identity order, identity count). Oracle: reference predicate of the statement, with signatures made by the repository's own ComputeSignature so that validity for the presented tuple is known by construction. Targets: gnosis/shutterservice ValidateDecryptionKeysSignatures and the Gnosis access node's full validator. non-trivial = the two lists differ in length, or exactly one field differs; distinct by case descriptor")
+	rec.AddRule("keyper sets n<=4 (fixed ECDSA keys + one outsider), all thresholds; signer lists of length 0..n+1 over {in range, =n, huge, repeated, descending}; signature lists of length 0..n+1 with entries {by the listed signer, by the keyper at that position of the set, by another member, by the outsider, over a tuple differing in exactly one field, 65 random bytes, short, empty}; the presented message optionally differs from the signed tuple in exactly one field (instance, eon, slot, tx pointer, identity byte, identity order, identity count). Oracle: reference predicate of the statement, with signatures made by the repository's own ComputeSignature so that validity for the presented tuple is known by construction. Targets: gnosis/shutterservice ValidateDecryptionKeysSignatures and the Gnosis access node's full validator. non-trivial = the two lists differ in length, or exactly one field differs; distinct by case descriptor")
 	runRapid(t, N(800, 400000), func(rt *rapid.T) {
 		c := genC06Case(rt)
 		want := c.expected()
